@@ -294,3 +294,63 @@ func c04SameVerdict(a, b string) bool {
 	keyErr := map[string]bool{"err oddKeys": true, "err badKey": true, "err unknownKey": true}
 	return keyErr[a] && keyErr[b]
 }
+
+// c04Malformed: lambda-list elements that are no parameter specifier — `(name default extra)`,
+// `((name) default)`, a number, a string, a list of numbers — in every section: the definition must
+// be rejected with a condition (model: parseLL answers badLL, the code-level DefLambda a type error).
+// Seed independent.
+func c04Malformed(c *lib.Ctx) {
+	type bad struct{ kind, lisp, wire string }
+	bads := []bad{
+		{"three-elements", "(a1 1 2)", "(" + c04Sym("a1") + ",i:1,i:2)"},
+		{"name-not-a-symbol", "((a1) 1)", "((" + c04Sym("a1") + "),i:1)"},
+		{"number", "5", "i:5"},
+		{"string", `"s"`, "s:" + lib.Hex("s")},
+		{"list-of-numbers", "(1 2)", "(i:1,i:2)"},
+	}
+	sections := []string{"", "&optional", "&key", "&aux"}
+	var reqs []string
+	type cell struct {
+		form, sig string
+	}
+	var cells []cell
+	for _, sec := range sections {
+		for _, b := range bads {
+			l, w := "z1 ", c04Sym("z1")+","
+			if sec != "" {
+				l += sec + " "
+				w += c04Sym(sec) + ","
+			}
+			name := sec
+			if name == "" {
+				name = "required"
+			}
+			for _, def := range []string{"(lambda (%s) nil)", "(defun c04bad (%s) nil)", "(defmacro c04badm (%s) nil)"} {
+				cells = append(cells, cell{fmt.Sprintf(def, l+b.lisp), "lambda-list malformed-element-accepted section=" + name + " element=" + b.kind})
+				reqs = append(reqs, "ll bind ("+w+b.wire+") ()", "ll impl ("+w+b.wire+") ()")
+			}
+		}
+	}
+	rep := c.Model(reqs)
+	n := 0
+	for i, cl := range cells {
+		if rep[2*i] != "err badLL" || rep[2*i+1] != "err defLambda" {
+			panic("harness bug: the model accepts the malformed lambda list of " + cl.form + ": " + rep[2*i] + " / " + rep[2*i+1])
+		}
+		o := lib.EvalString(slip.NewScope(), cl.form)
+		n++
+		c.Ev.Case("malformed "+cl.form, true)
+		out := c04Outcome(o)
+		if o.Ok {
+			out = "ok"
+		}
+		if !o.Ok && out != "err go-fault" {
+			continue
+		}
+		c.Report(cl.sig, true, map[string]any{"part": "malformed", "sweep": true, "input": cl.form,
+			"observed": out, "expected": "a condition: the element is no parameter specifier (model ll.bind: err badLL; ll.impl: err defLambda)",
+			"expected_from": "model:ll.bind / ll.impl", "relies_on": []string{"SlipVerif.Theorems.GenC04.defLambda_grammar"}})
+	}
+	c.Ev.Coverage["lambda_malformed_element_cells"] = n
+	c.Ev.Count("traces_validated_against_impl", n)
+}
